@@ -35,3 +35,8 @@ CLAIMED["C03"] = (
  "static analysis: the guarded-bound prover over the envelope decoders (header fields and constant offsets), CFG rules for fail-closed two-stage decryption and search-hash comparison, same-value return rules for the transparent path",
  "Decides that no header field of a protected value can index, slice or size an allocation out of range in the envelope decoders, that AcraBlock.Decrypt authenticates the key block only on the key-id match, decrypts the payload only with the key obtained from it, under the caller's context, and turns every failure into an error, that every hash comparison answers 'not equal' with an error, and that the transparent path returns the very input container / re-emits input bytes when nothing could be decrypted. That the AEAD rejects every altered byte is delegated to Themis; the 'identical plaintext or error' disjunction as a whole is not decided.",
  NOTE, "DESIGN.md §2 C03")
+
+CLAIMED["C06"] = (
+ "static analysis: constant agreement between the listing's first index and the destroy function's offset plus an in-range proof of the caller-chosen index (bound prover with closed-world caller guards), sibling rule over v2 'all keys' iterators, must-follow rule for the history-cache refresh, store-pattern rules for newest-first order",
+ "Decides that 'destroy index N' addresses the element the listing shows as N and cannot index outside the list (both keystore formats), that no v2 all-keys reader aborts on a destroyed key, that every successful v1 rotation refreshes or drops the cached history list, and that both formats return the newest key first. History semantics over arbitrary operation sequences, timestamp ordering of rotated files and re-open behaviour are not decided.",
+ NOTE, "DESIGN.md §2 C06")
